@@ -286,7 +286,15 @@ where
                             // Ensure all window updates have been sent.
                             //
                             // This will also handle flushing `self.codec`
-                            ready!(self.inner.streams.poll_complete(cx, &mut self.codec))?;
+                            if let Err(e) =
+                                ready!(self.inner.streams.poll_complete(cx, &mut self.codec))
+                            {
+                                // A failed write ends the connection like a
+                                // failed read does: the streams are told the
+                                // transport's error before it is returned.
+                                self.inner.as_dyn().handle_poll2_result(Err(e.into()))?;
+                                continue;
+                            }
 
                             if (self.inner.error.is_some()
                                 || self.inner.go_away.should_close_on_idle())
